@@ -301,7 +301,7 @@ def override_view(flags, today):
 
 # ------------------------------------------------------------------ generators
 
-NAMES = ["a", "b", "work", "foo-bar", "x_1", "büro", "T2"]
+NAMES = ["a", "b", "work", "foo-bar", "x_1", "büro", "T2", "ǅungla", "ǈ1"]
 VALUES = ["", "", "", "1", "x", "X", "a b", "it's", '5"', "'hi'", "hi", "5", '"q"', "q"]
 # values that differ only by a quote character at either end (a quoted value may contain the other kind of quote)
 CONFUSABLE = [("hi", "'hi'"), ("5", '5"'), ("q", '"q"'), ("x", "x'"), ("1", '"1')]
